@@ -5,6 +5,7 @@ import GinjaxVerif.Lemmas.C03Enum
 import GinjaxVerif.Lemmas.C03Lists
 import GinjaxVerif.Lemmas.C03Character
 import GinjaxVerif.Lemmas.C03Literal
+import GinjaxVerif.Lemmas.C03Link
 import Mathlib.GroupTheory.OrderOfElement
 import Mathlib.Algebra.CharZero.Defs
 import Mathlib.Data.Int.Cast.Lemmas
@@ -342,5 +343,42 @@ example : ∃ H : Subgroup (SP 2), ∀ g, g ∈ [1, rot90, rot90 * rot90, rot90 
 
 example : Enumerates ([1] : List (SP d)) ⊥ :=
   ⟨by simp, fun g => by simp [Subgroup.mem_bot]⟩
+
+/-! ### link to C02
+
+The monomial action `act` on filters that every theorem above is about is not a separate model of
+the group action: it **is** C02's model `tge` of the code's `times_group_element`
+(`Model/Action.lean`: gather through `rotatedKey` with `rint` and `%`, einsum `tactL`, Laplace
+`det`), evaluated on the filter seen as an image of extents `(M,…,M)` (`imgOfFilter`), at the
+pixel `pixOf j.px` and tensor multi-index `tnOf j.tn` of the filter index `j`.  `g` ranges over
+C02's signed permutations `GinjaxVerif.SP d`, i.e. (`exists_SP_of_isSignedPerm`,
+`tge_imgOfFilter_of_isSignedPerm`) over every matrix accepted by `isSignedPerm`; `ofAction g` is
+the same matrix in the sparse form of the C03 model (`ofAction_entry`, `ofAction_det`,
+`ofAction_valid`), and `ofAction (toAction g) = g.toCore` for the group `C03.SP d` used above. -/
+
+/-- **C03's action on filters is C02's model of `times_group_element`** — every `d`, `M`, `k`,
+parity `p`, signed permutation `g`, filter `A`, index `j`. -/
+theorem act_eq_tge (g : GinjaxVerif.SP d) (p : ℕ) (A : FIdx d M k → ℤ) (j : FIdx d M k) :
+    act (ofAction g) p A j = (tge g.mat p (imgOfFilter A)).val (pixOf j.px) (tnOf j.tn) :=
+  (tge_imgOfFilter g p A j).symm
+
+/-- **the rows of `filter_matrix` are group sums of `times_group_element` images**: entry `j` of
+row `i` (`groupSum`, the object of `groupSum_eq_avg` and `model_family_basis`) is the sum over the
+operator list of C02's `tge` applied to the basis filter `e_i`, read at `j`. -/
+theorem groupSum_eq_sum_tge (ops : List (SP d)) (p : ℕ) (i j : FIdx d M k) :
+    groupSum (ops.map SP.toCore) p i j
+      = (ops.map fun g =>
+          (tge (toAction g).mat p (imgOfFilter (basis i))).val (pixOf j.px) (tnOf j.tn)).sum :=
+  groupSum_tge_toCore ops p i j
+
+/-- a `3 × 3` vector filter with pairwise different entries -/
+def exFilter : FIdx 2 3 1 → ℤ := fun j => (j.px 0).val + 3 * (j.px 1).val + 9 * (j.tn 0).val
+
+/-- non-vacuity of the link: the quarter turn acting on `exFilter`, computed through C02's `tge`, is
+C03's `act` -/
+example (j : FIdx 2 3 1) :
+    (tge (toAction rot90).mat 1 (imgOfFilter exFilter)).val (pixOf j.px) (tnOf j.tn)
+      = act rot90.toCore 1 exFilter j :=
+  tge_imgOfFilter_toCore rot90 1 exFilter j
 
 end GinjaxVerif.C03
